@@ -11,8 +11,9 @@ class C19(Prop):
     trace_module = "Trace_Catalog"
     exhaustive = True
     rule = ("complete: the live DeviceType members, every (device class x device type) construction attempted, both port "
-            "tables dumped; one catalogue event judged by Catalog!Violations, plus one catalogue per device state to "
-            "show the guards do not depend on it. non-trivial = every catalogue (each holds all 36 constructions)")
+            "tables dumped; one catalogue event judged by Catalog!Violations, one catalogue per device state (the guards must not "
+            "depend on it) and five catalogues from fresh interpreters with different import orders of the library's modules. "
+            "non-trivial = every catalogue (each holds all 36 constructions)")
     assumptions = [
         "which category a device class is 'for' is taken from its public name (SwitcherPowerPlug -> POWER_PLUG, "
         "SwitcherWaterHeater -> WATER_HEATER, SwitcherThermostat -> THERMOSTAT, SwitcherShutter -> SHUTTER)",
@@ -23,42 +24,26 @@ class C19(Prop):
         return [{"module": "MC_Catalog"}]
 
     def scenarios(self, ctx: Ctx):
-        return [{"state": "ON"}, {"state": "OFF"}]
+        out = [{"state": "ON", "order": []}, {"state": "OFF", "order": []}]
+        # the tables must not depend on which part of the library was imported first: fresh interpreters, several import orders
+        for order in (["bridge", "api"], ["api", "bridge"], ["device", "bridge", "api"], ["api", "device", "schedule", "bridge"], ["schedule", "bridge"]):
+            out.append({"state": "ON", "order": order, "fresh": True})
+        return out
 
     def execute(self, scn):
-        from aioswitcher import api, bridge, device
-        from aioswitcher.device import (DeviceCategory, DeviceState, DeviceType, ShutterDirection, SwitcherPowerPlug,
-                                         SwitcherShutter, SwitcherThermostat, SwitcherWaterHeater, ThermostatFanLevel,
-                                         ThermostatMode, ThermostatSwing)
-        st = DeviceState[scn["state"]]
-        types = list(DeviceType)
-        tl = [{"name": t.name, "code": text(t.hex_rep), "ptype": t.protocol_type, "cat": t.category.name} for t in types]
-        base = ("ab1234", "18", "10.0.0.7", "12:A1:A2:1A:BC:1A", "dev")
-        makers = {
-            "POWER_PLUG": lambda t: SwitcherPowerPlug(t, st, *base, 10, 0.1),
-            "WATER_HEATER": lambda t: SwitcherWaterHeater(t, st, *base, 10, 0.1, "00:10:00", "01:00:00"),
-            "THERMOSTAT": lambda t: SwitcherThermostat(t, st, *base, ThermostatMode.COOL, 24.5, 23, ThermostatFanLevel.LOW,
-                                                       ThermostatSwing.OFF, "ELEC7022"),
-            "SHUTTER": lambda t: SwitcherShutter(t, st, *base, 50, ShutterDirection.SHUTTER_STOP),
-        }
-        accepts = []
-        for own, mk in makers.items():
-            for k, t in enumerate(types):
-                try:
-                    obj = mk(t)
-                    ok = obj.device_type is t
-                    exc = None
-                except Exception as x:  # noqa: BLE001 - any refusal counts as "refused"
-                    ok, exc = False, type(x).__name__
-                accepts.append({"own": own, "type": k + 1, "ok": ok, "exc": exc or ""})
-        cat = {
-            "types": tl,
-            "cats": [c.name for c in DeviceCategory],
-            "accepts": accepts,
-            "udp": [{"cat": c.name, "port": p} for c, p in bridge.SWITCHER_DEVICE_TO_UDP_PORT.items()],
-            "tcp": [{"cat": c.name, "port": p} for c, p in api.SWITCHER_DEVICE_TO_TCP_PORT.items()],
-        }
-        return [{"ev": "Catalog", "state": scn["state"], "c": cat}]
+        import json
+        import subprocess
+        import sys
+        from ..catalogdump import dump
+        if scn.get("fresh"):
+            p = subprocess.run([sys.executable, "-m", "harness.catalogdump", scn["state"], ",".join(scn["order"])], capture_output=True, text=True, timeout=120)
+            if p.returncode != 0:
+                from ..tlc import Machinery
+                raise Machinery("catalogue dump failed in a fresh interpreter: " + p.stderr[-300:])
+            cat = json.loads(p.stdout.strip().splitlines()[-1])
+        else:
+            cat = dump(scn["state"], scn["order"])
+        return [{"ev": "Catalog", "state": scn["state"], "order": scn["order"], "c": cat}]
 
 
 PROP = C19()
